@@ -23,7 +23,10 @@ pub struct ProgCase {
 }
 
 /// known findings whose trigger shapes the program generators avoid while they are listed
-pub const PROGRAM_KNOWN: &[&str] = &["KF-C01-variadic-lambda-application"];
+pub const PROGRAM_KNOWN: &[&str] = &["KF-C01-variadic-lambda-application", "KF-C01-define-shadows-constant"];
+
+/// module code + JIT: an error raised in a closure called through map/apply/fold is swallowed
+pub const KF_SWALLOW: &str = "KF-C02-jit-swallows-error-under-hof";
 
 pub fn avoid_list(ctx: &Ctx) -> Vec<String> {
     PROGRAM_KNOWN.iter().filter(|id| ctx.is_known_active(id)).map(|s| s.to_string()).collect()
@@ -113,22 +116,61 @@ fn is_nontrivial(c: &ProgCase, steps: u64) -> bool {
 }
 
 pub fn check_case(ctx: &Ctx, ws: &mut Workers, c: &ProgCase, counting: bool, cfgs: &[Config]) -> PropResult {
+    check_case_ex(ctx, ws, c, counting, cfgs, false)
+}
+
+/// `strict`: no exclusion of known findings (used when replaying stored cases)
+pub fn check_case_ex(ctx: &Ctx, ws: &mut Workers, c: &ProgCase, counting: bool, cfgs: &[Config], strict: bool) -> PropResult {
     let Some(m) = model_run(&c.program) else {
         if counting {
             ctx.stats.class("outside-model-domain");
         }
         return Ok(());
     };
-    for cfg in cfgs {
-        match check_program("c01", ws, cfg, &c.program, &m.result, &[]) {
-            RunVerdict::Inconclusive => {
-                if counting {
-                    ctx.stats.inconclusive.fetch_add(1, std::sync::atomic::Ordering::Relaxed);
+    // JIT-off first: a failure there is a plain C01 failure.  A failure that only the JIT
+    // configuration shows is a divergence between configurations (C02): it gets its own
+    // signature class `c01:jitdiv:...` so that it is attributed and listed separately.
+    let jit_off = Config::jit_off();
+    let jit_on = Config::default_cfg();
+    for entry in [Entry::Repl, Entry::Module] {
+        let mut off_ok = true;
+        if cfgs.contains(&jit_off) {
+            match check_program_entry("c01", ws, &jit_off, &c.program, &m.result, &[], entry) {
+                RunVerdict::Inconclusive => {
+                    off_ok = false;
+                    if counting {
+                        ctx.stats.inconclusive.fetch_add(1, std::sync::atomic::Ordering::Relaxed);
+                    }
                 }
+                RunVerdict::Done(r) => r?,
             }
-            RunVerdict::Done(r) => r?,
+            ctx.stats.engine_runs.fetch_add(1, std::sync::atomic::Ordering::Relaxed);
         }
-        ctx.stats.engine_runs.fetch_add(1, std::sync::atomic::Ordering::Relaxed);
+        if cfgs.contains(&jit_on) {
+            if entry == Entry::Module
+                && m.trace.get("raise-under-higher-order-builtin").copied().unwrap_or(0) > 0
+                && ctx.is_known_active(KF_SWALLOW)
+                && !strict
+            {
+                if counting {
+                    ctx.stats.excluded(KF_SWALLOW);
+                }
+                continue;
+            }
+            match check_program_entry("c01", ws, &jit_on, &c.program, &m.result, &[], entry) {
+                RunVerdict::Inconclusive => {
+                    if counting {
+                        ctx.stats.inconclusive.fetch_add(1, std::sync::atomic::Ordering::Relaxed);
+                    }
+                }
+                RunVerdict::Done(Err(f)) if off_ok && cfgs.contains(&jit_off) => {
+                    let sub = f.sig.strip_prefix("c01:").unwrap_or(&f.sig).to_string();
+                    return Err(Failure::new(format!("c01:jitdiv:{}", sub), format!("(the same program agrees with the model under STEEL_JIT=false)\n{}", f.detail)));
+                }
+                RunVerdict::Done(r) => r?,
+            }
+            ctx.stats.engine_runs.fetch_add(1, std::sync::atomic::Ordering::Relaxed);
+        }
     }
     // oracle 2: one rewrite per program (chosen by a hash of the text), default configuration
     let rws = rewrites();
@@ -211,7 +253,7 @@ pub fn run(ctx: &Ctx, replay: Option<&str>) -> i32 {
         let mut ws = Workers::new();
         let mut c = rf.case;
         c.text = render_program(&c.program);
-        return match check_case(ctx, &mut ws, &c, false, &cfgs) {
+        return match check_case_ex(ctx, &mut ws, &c, false, &cfgs, true) {
             Ok(()) => {
                 println!("replay {}: property holds", path);
                 0
@@ -228,10 +270,10 @@ pub fn run(ctx: &Ctx, replay: Option<&str>) -> i32 {
         replay_tier::<ProgCase>(ctx, "prog", &mut |c| {
             let mut c = c.clone();
             c.text = render_program(&c.program);
-            check_case(ctx, &mut ws, &c, false, &cfgs)
+            check_case_ex(ctx, &mut ws, &c, false, &cfgs, true)
         });
     }
-    let total = ctx.n(6000, 300_000);
+    let total = ctx.n(15_000, 600_000);
     let avoid = avoid_list(ctx);
     let fails = run_prop(
         ctx,
@@ -246,6 +288,7 @@ pub fn run(ctx: &Ctx, replay: Option<&str>) -> i32 {
                 if let Some(k) = ctx.match_known(&f) {
                     if counting {
                         ctx.note_known_hit(&k.id);
+                        ctx.dump_known_case(k, "prog", c, &f);
                     }
                     Ok(())
                 } else if ctx.survey(&f) {
